@@ -661,11 +661,13 @@ class Reader(ABC):
         """
         if self.lons is None and self.lats is None:
             self.lons, self.lats = self._get_lonlat_from_file()
-            self.update_meta_data()
 
             # Adjust clock drift
             if self.adjust_clock_drift:
                 self._adjust_clock_drift()
+
+            # The meta data describe the (possibly shifted) final timestamps
+            self.update_meta_data()
 
             # Interpolate from every eighth pixel to all pixels.
             if self.interpolate_coords:
